@@ -25,6 +25,9 @@ PARTS = {
     "relay": ("^TestVerifUDPRelay$", "UDPrelay.report.json",
               "real client and listener over loopback through a user-space relay that drops 0-30%, duplicates 0-30% and reorders "
               "0-25% for 1.5 s and then heals: bytes read are a prefix of the bytes written at every moment, and everything arrives"),
+    "oob": ("^TestVerifUDPOOB$", "UDPoob.report.json",
+            "two conversations on ONE source address (two sessions on one socket): out-of-band messages of sizes 0..max of conversation A "
+            "reach A's handler intact; conversation B then sends only out-of-band messages - none of them may reach A's handler"),
 }
 
 
